@@ -119,7 +119,7 @@ func VP_C18_isolation() {
 	}
 	_ = err
 	fresh := NewInterpreter()
-	vpAssert("no-package-level-state-written", vpGlobalWrites() == w0)
+	vpAssert("monitor:no-package-level-state-written", vpGlobalWrites() == w0)
 	vpAssert("fresh-instance-as-if-nothing-happened", vpSameInstance(fresh, ref))
 	fr, hr := vpReachable(fresh), vpReachable(hostile)
 	shared := false
